@@ -266,9 +266,7 @@ class Interp:
 
     def read_elem(self, base: Val, key: Optional[Val] = None, node=None, fancy=False) -> Val:
         parts = []
-        deps = set(base.deps)
-        if key is not None:
-            deps |= key.deps
+        deps = set(base.deps)       # the key selects the element; it is not a data source of the value
         for oid in base.refs:
             o = self.obj(oid)
             if o.dictkeys is not None and key is not None and key.has_const and key.const in o.dictkeys:
